@@ -34,6 +34,9 @@ theorem time_frac_ctor :
 theorem time_strftime_buffer :
     0 < Extracted.strftimeBuf.1 ∧ 1 < Extracted.strftimeBuf.2 ∧ Extracted.emptyFormatGuard = true := by decide
 
+/-- finding F21 is repaired in the current header: a repeated fractional specifier is rejected -/
+theorem time_rejects_repeated : Extracted.rejectsRepeatedSpecifier = true := by decide
+
 /-- what the local-time theorem needs from the recalculation period -/
 theorem time_local_period : 0 < Extracted.localPeriod ∧ 43200 % Extracted.localPeriod = 0 := by decide
 
@@ -63,10 +66,26 @@ theorem C13_extracted (tz : Nat → Time.ZInfo)
     (hlower : ∀ t, -(978307200 : Int) ≤ (tz t).off)
     (p : List Char) (hs : Time.supportedToks (Time.lex p) = true) (hx : Time.hasX (Time.lex p) = false)
     (hf : Time.fracCount (Time.lex p) ≤ 1) (nss : List Nat) (hr : ∀ ns ∈ nss, Time.InRange p ns) :
-    Time.renderAll Extracted.localPeriod tz p true nss =
+    Time.renderAll Extracted.rejectsRepeatedSpecifier Extracted.localPeriod tz p true nss =
       some (nss.map (fun ns =>
         Time.strftimeRef p (Time.mkTm (ns / 1000000000) (tz (ns / 1000000000))) (ns % 1000000000))) :=
-  Time.C13_local Extracted.localPeriod tz
+  Time.C13_local Extracted.rejectsRepeatedSpecifier Extracted.localPeriod tz
     ⟨time_local_period.1, time_local_period.2, hconst, haligned, hlower⟩ p hs hx hf nss hr
+
+/-- **C13 rejections for the constructor as extracted**: more than one fractional specifier, or `%X`, throws -/
+theorem C13_rejects_extracted (p : List Char) (loc : Bool) (hs : Time.supportedToks (Time.lex p) = true)
+    (h : 2 ≤ Time.fracCount (Time.lex p) ∨ Time.hasX (Time.lex p) = true) :
+    ∃ e, Time.TF.init Extracted.rejectsRepeatedSpecifier p loc = .error e := by
+  rw [time_rejects_repeated]
+  obtain ⟨h1, h2, h3⟩ := Time.C13_rejects true p loc hs
+  rcases Nat.lt_or_ge (Time.kindCount (Time.lex p)) 2 with hk | hk
+  · rcases Nat.lt_or_ge (Time.fracCount (Time.lex p)) 2 with hf | hf
+    · rcases h with h | h
+      · omega
+      · exact ⟨_, h3 (by omega) h⟩
+    · rcases h2 (by omega) hf with e | e
+      · exact ⟨_, e⟩
+      · exact ⟨_, e⟩
+  · exact ⟨_, h1 hk⟩
 
 end Obligations
